@@ -24,7 +24,10 @@ G  == Fn("g", "g", "a.c", 0)
 M0 == Mp("B1", "bin", 16, 8, 0)
 LF == Loc(M0, 3, <<Ln(F, 10, 0)>>, FALSE)
 LG == Loc(M0, 4, <<Ln(G, 20, 0)>>, FALSE)
-Stk == << <<LF>>, <<LG, LF>>, <<LG>> >>
+H  == Fn("h", "h", "b.c", 0)
+LH == Loc(M0, 5, <<Ln(H, 30, 0)>>, FALSE)
+\* 4..6: location tables of three, one and two entries that give the same ids to different functions
+Stk == << <<LF>>, <<LG, LF>>, <<LG>>, <<LH, LG, LF>>, <<LH>>, <<LG, LH>> >>
 
 Factor(u) == CASE u = "us" -> 1 [] u = "ms" -> 1000 [] u = "s" -> 1000000 [] u = "B" -> 1 [] u = "kB" -> 1024 [] OTHER -> 1
 VT(t, u) == [t |-> t, u |-> u]
@@ -71,6 +74,11 @@ Cases(d) ==
     \* three units in the order coarse, finest, intermediate
     \cup { [srcs |-> <<P(2, <<S2(1, a)>>), P(6, <<S2(k, b)>>), P(1, <<S2(1, <<1, 3>>)>>)>>, bases |-> <<>>, mode |-> "plain", norm |-> FALSE] :
              a \in {<<1, 3>>, <<2, 2>>}, b \in {<<5, 0>>, <<1, 3>>, <<7, 1>>}, k \in {1, 2} }
+    \* three and four sources whose location tables have different sizes, in every order (per-source id maps)
+    \cup { [srcs |-> <<q[o[1]], q[o[2]], q[o[3]]>>, bases |-> <<>>, mode |-> "plain", norm |-> FALSE] :
+             o \in {x \in [1..3 -> 1..3] : \A i, j \in 1..3 : x[i] = x[j] => i = j},
+             q \in { <<P(1, <<S2(4, <<1, 3>>)>>), P(1, <<S2(sm, <<5, 0>>)>>), P(1, <<S2(md, <<2, 2>>)>>)>> : sm \in {1, 5}, md \in {2, 6} } }
+    \cup { [srcs |-> <<P(1, <<S2(4, <<1, 3>>)>>), P(1, <<S2(5, <<5, 0>>)>>)>>, bases |-> <<P(1, <<S2(6, <<2, 2>>)>>)>>, mode |-> m, norm |-> FALSE] : m \in {"base", "diff_base"} }
     \cup (IF Tier = "thorough"
           THEN { [srcs |-> <<a, b, c>>, bases |-> <<e>>, mode |-> m, norm |-> FALSE] :
                    a \in Profs(1), b \in Profs(2), c \in Profs(3) \cup Profs(5), e \in Profs(4), m \in {"base", "diff_base"} }
